@@ -304,12 +304,26 @@ impl Prop for C08 {
     }
     fn runs(&self, tier: Tier) -> u64 {
         match tier {
-            Tier::Quick => 3000 + 5000,
+            Tier::Quick => 3000 + 9000,
             Tier::Thorough => 3000 + 300_000,
         }
     }
     fn make(&self, seed: u64, run: u64, tier: Tier) -> Case {
         let mut rng = Rng::derive(seed, "C08", run, "gen");
+        if (2984..3000).contains(&run) {
+            // every hand-built hostile stream once on the unmodified build without layers (full scale:
+            // 200 000 index offsets) and once on s1 with both layers
+            let k = run - 2984;
+            let (variant, layers) = if k < 8 { ("prod", 0u8) } else { ("s1", 3u8) };
+            let cfg = ArcCfg { variant: variant.into(), layers, level: 3, recipients: usize::from(layers & 1 != 0), reader: 0, rng_seed: if variant == "s1" { 9 } else { 0 }, key_seed: 9 };
+            let ops = vec![WOp::Add { name: Name::lit("a"), data: Data::Period { n: 40, p: 7 }, src: Src::exact() }, WOp::Finalize];
+            let mut case = Case::new("C08", cfg, ops);
+            case.params.insert("place".into(), 3);
+            case.params.insert("craft".into(), (k % 8) as i64);
+            case.params.insert("mut_seed".into(), 5);
+            case.params.insert("hist_seed".into(), 23);
+            return case;
+        }
         if run < 3000 {
             // systematic single faults on one small s0 archive without layers: bits, then cuts
             let cfg = ArcCfg { variant: "s0".into(), layers: 0, level: 0, recipients: 0, reader: 0, rng_seed: 3, key_seed: 3 };
@@ -438,7 +452,7 @@ impl Prop for C08 {
                     Err(_) => base.clone(),
                 },
                 3 => {
-                    let (st, name) = crafted_stream(case.param("craft", 0) as u64, &mut mrng, if par.chunk > 1000 && layers & 2 == 0 { 30 } else { 1 });
+                    let (st, name) = crafted_stream(case.param("craft", 0) as u64, &mut mrng, if par.chunk > 1000 && layers == 0 { 100 } else if par.chunk > 1000 && layers == 1 { 4 } else { 1 });
                     kinds.push(format!("crafted:{name}"));
                     inner_len_hint = st.len();
                     refmla::wrap(&st, layers, case.cfg.level, Some(&spec()), par)
